@@ -704,3 +704,106 @@ SUBS = [
     Sub("simu_equivalence", check_simu, gen=simu_cases, quick=200, thorough=300, shards=8,
         doc="Simulations.WeakForms == Simulations.Thermal / Elastic: K, C, M, F and solutions"),
 ]
+
+
+# ------------------------------------------------------------------------------------------
+# (added by the lead, round 9) the matrices of a weak-form SIMULATION are the scatter-add of the user's forms integrated on the
+# user's field (its quadrature), for forms the stiffness rule does not integrate exactly: a reaction term c u v next to the
+# diffusion term, a position-dependent coefficient - K, C, M and F alike
+
+
+def enum_weakforms_matrices(tier):
+    sq = [[0.0, 0.0], [1.2, 0.1], [1.0, 0.9], [0.1, 1.0]]
+    for et in ("TRI3", "TRI6", "QUAD4", "QUAD8", "TETRA4", "TETRA10"):
+        d3 = et.startswith("TETRA")
+        r = dict(verts=sq, h=0.6 if not d3 else 1.3, elemType=et, organised=et.startswith("QUAD"), extrude=[0.1, 0.0, 0.8] if d3 else None,
+                 layers=1 if d3 else 0, A=None, b=None, perm=None, orphans=0)
+        for mt in ("rigi", "mass"):
+            yield dict(recipe=r, mt=mt)
+
+
+def check_weakforms_matrices(case, rec):
+    mesh = gm.build(case["recipe"])
+    groups = gm.main_groups(mesh)
+    if len(groups) != 1:
+        raise Inconclusive("WeakForms is single-group")
+    g = groups[0]
+    et = str(g.elemType)
+    mt = MatrixType.rigi if case["mt"] == "rigi" else MatrixType.mass
+    sig = dict(elemType=et, mt=case["mt"])
+    rec.label("wf_matrices:" + et + ":" + case["mt"])
+    field = Field(g, 1, matrixType=mt)
+    fK = BiLinearForm(lambda u, v: (1.0 + u.Get_coords()[0]) * u.grad.dot(v.grad) + 40.0 * u.dot(v))
+    fC = BiLinearForm(lambda u, v: 0.5 * u.dot(v))
+    fM = BiLinearForm(lambda u, v: (2.0 + v.Get_coords()[1]) * u.dot(v))
+    fF = LinearForm(lambda v: (1.0 + v.Get_coords()[0] * v.Get_coords()[1]) * v)
+    simu = Simulations.WeakForms(mesh, Models.WeakForms(field, fK, computeC=fC, computeM=fM, computeF=fF))
+    K, C, M, F = simu.Get_K_C_M_F()
+    Ndof = int(g.Ncoords)
+    conn = np.asarray(g.connect)
+    for name, A, form in (("K", K, fK), ("C", C, fC), ("M", M, fM)):
+        A_e = np.asarray(form.Integrate_e(field), float)
+        ref = orc.scatter_matrix(Ndof, conn, 1, A_e)
+        rec.close(orc.dense(A)[:Ndof, :Ndof] - ref, float(np.abs(ref).max()), TOL_ID, "weakforms_matrix_is_scatter_of_form",
+                  f"{et} field on the {case['mt']} rule: {name} of Simulations.WeakForms is not the scatter-add of the user's form integrated on "
+                  "the user's field", slot=name, **sig)
+    F_e = np.asarray(fF.Integrate_e(field), float)
+    refF = orc.scatter_vector(Ndof, conn, 1, F_e)
+    rec.close(orc.dense(F).ravel()[:Ndof] - refF, float(np.abs(refF).max()), TOL_ID, "weakforms_matrix_is_scatter_of_form",
+              f"{et}: F of Simulations.WeakForms is not the scatter-add of the user's linear form", slot="F", **sig)
+    rec.nontrivial(True)
+
+
+SUBS.append(Sub("weakforms_matrices", check_weakforms_matrices, enum=enum_weakforms_matrices,
+                doc="element type x quadrature of the field: K, C, M, F of a weak-form simulation vs the scatter-add of the forms (reaction + diffusion, position-dependent coefficients)"))
+
+
+# ------------------------------------------------------------------------------------------
+# (added by the lead, round 9) mass along the normal on the surface groups of a CURVED 3D mesh (the normal varies inside a facet): the
+# user form k (u . n)(v . n) with the normals at the integration points, the built-in operator MassAlongNormal and a dense sum
+# written by the harness from the shape functions, weights and normals agree
+
+
+def enum_mass_along_normal(tier):
+    sq = [[0.0, 0.0], [1.2, 0.1], [1.0, 0.9], [0.1, 1.0]]
+    for et in ("TETRA4", "TETRA10", "HEXA8", "HEXA20", "PRISM15"):
+        for bend in (None, 0.15):
+            r = dict(verts=sq, h=1.3, elemType=et, organised=et.startswith("HEXA"), extrude=[0.1, 0.0, 0.8], layers=1, A=None, b=None,
+                     perm=None, orphans=0)
+            if bend:
+                r["bend"] = bend
+            yield dict(recipe=r)
+
+
+def check_mass_along_normal(case, rec):
+    from EasyFEA.FEM import Operators
+
+    mesh = gm.build(case["recipe"])
+    bent = bool(case["recipe"].get("bend"))
+    rec.label("normal_mass:" + case["recipe"]["elemType"], "bent" if bent else "straight")
+    mt = MatrixType.mass
+    spread = 0.0
+    for g in mesh.Get_list_groupElem(2):
+        if g.Ne == 0:
+            continue
+        sig = dict(elemType=str(g.elemType), volume=case["recipe"]["elemType"], bent=bent)
+        field = Field(g, 3, matrixType=mt)
+        n_e_pg = g.Get_normals_e_pg(mt)
+        nn = np.asarray(n_e_pg, float)
+        spread = max(spread, float(np.abs(nn - nn[:, :1]).max()))
+        k = 1.5
+        form = BiLinearForm(lambda u, v: k * u.dot(n_e_pg) * v.dot(n_e_pg))
+        A_form = np.asarray(form.Integrate_e(field), float)
+        A_built = np.asarray(Operators.Bilinear.MassAlongNormal(g, k, mt), float)
+        wJ = np.asarray(g.Get_weightedJacobian_e_pg(mt), float)
+        N = np.asarray(g.Get_N_pg(mt), float).reshape(wJ.shape[1], -1)  # (nPg, nPe)
+        A_ref = np.einsum("ep,pi,pj,epa,epb->eiajb", k * wJ, N, N, nn, nn).reshape(g.Ne, 3 * g.nPe, 3 * g.nPe)
+        scale = float(np.abs(A_ref).max())
+        rec.close(A_built - A_ref, scale, TOL_ID, "mass_along_normal_builtin", f"{g.elemType} skin of a {'bent' if bent else 'straight'} "
+                  f"{case['recipe']['elemType']} mesh: MassAlongNormal differs from the sum over the integration points of k wJ N_i N_j n_a n_b", **sig)
+        rec.close(A_form - A_ref, scale, TOL_ID, "mass_along_normal_form", f"{g.elemType}: the user form k (u.n)(v.n) differs from the same sum", **sig)
+    rec.nontrivial(spread > 1e-6 if bent else True)
+
+
+SUBS.append(Sub("mass_along_normal", check_mass_along_normal, enum=enum_mass_along_normal,
+                doc="volume element type x straight / bent mesh: form, built-in operator and a dense reference on every surface group"))
